@@ -31,3 +31,18 @@ func VerifC12Tasks(r *Result) []VerifC12Task {
 	})
 	return out
 }
+
+// VerifC12Machines lists address and bigmachine state ("RUNNING", "STARTING",
+// "STOPPED", ...) of every machine the session's bigmachine instance has started.
+// Empty on the local executor.
+func VerifC12Machines(s *Session) map[string]string {
+	out := map[string]string{}
+	bm, _ := s.executor.(*bigmachineExecutor)
+	if bm == nil || bm.b == nil {
+		return out
+	}
+	for _, m := range bm.b.Machines() {
+		out[m.Addr] = m.State().String()
+	}
+	return out
+}
